@@ -205,7 +205,7 @@ def run_eval(op, key, pool, args, ctx, tmpdir):
                 path = os.path.join(tmpdir, f"c_{seed}")
                 virocon.save_contour_coordinates(c, path)
                 res = open(path + ".txt").read()
-            if not np.array_equal(np.asarray(c.coordinates), cb):
+            if not np.array_equal(np.asarray(c.coordinates), cb, equal_nan=True):
                 ctx.violation(f"contour_coordinates_mutated:{name}", "")
         elif name == "plot_isodensity":
             if n_dim != 2 or is_t:
@@ -223,7 +223,7 @@ def run_eval(op, key, pool, args, ctx, tmpdir):
             finally:
                 plt.close(fig)
     for r, orig in inputs:
-        if not np.array_equal(np.asarray(r), orig):
+        if not np.array_equal(np.asarray(r), orig, equal_nan=True):
             ctx.violation(f"input_mutated:{name}", "a caller-owned array was changed")
     return res
 
